@@ -123,30 +123,40 @@ Lemma reg_runtime_ok s caller rt :
   match any_runtime s (r_id rt) with
   | Some old => rt_acct old = Some caller /\ r_kind old = r_kind rt /\
                 (r_gov old = r_gov rt \/ (r_gov old = 1 /\ r_gov rt = 2)) /\
-                km_changed (r_km old) (r_km rt) = false
-  | None => rt_acct rt = Some caller
+                km_changed (r_km old) (r_km rt) = false /\
+                r_genesis old = r_genesis rt /\
+                deps_update_ok (s_epoch s) (r_deps old) (r_deps rt) = true /\
+                active_kept (s_epoch s) (r_deps old) (r_deps rt) = true
+  | None => rt_acct rt = Some caller /\ active_deployment (s_epoch s) (r_deps rt) = None
   end.
 Proof.
   unfold reg_runtime_check. intros H. if_ok H.
-  apply negb_false_iff in E3, E5.
-  apply orb_true_iff in E3, E5.
-  split; [destruct E5 as [X|X]; apply N.eqb_eq in X; auto|].
-  split; [destruct E3 as [X|X]; apply N.eqb_eq in X; auto|].
+  split.
+  { match goal with X : negb ((r_gov rt =? 1) || (r_gov rt =? 2)) = false |- _ =>
+      apply negb_false_iff in X; apply orb_true_iff in X; destruct X as [X|X]; apply N.eqb_eq in X; auto end. }
+  split.
+  { match goal with X : negb ((r_kind rt =? 1) || (r_kind rt =? 2)) = false |- _ =>
+      apply negb_false_iff in X; apply orb_true_iff in X; destruct X as [X|X]; apply N.eqb_eq in X; auto end. }
   unfold rt_update_check, rt_signer_check in H.
   destruct (any_runtime s (r_id rt)) as [old|].
   - destruct (negb (r_kind old =? r_kind rt)) eqn:K; [discriminate|].
+    destruct (negb (r_genesis old =? r_genesis rt)) eqn:GE; [discriminate|].
     destruct (km_changed (r_km old) (r_km rt)) eqn:KM; [discriminate|].
     destruct (negb (r_gov old =? r_gov rt) && negb ((r_gov old =? 1) && (r_gov rt =? 2))) eqn:G; [discriminate|].
+    destruct (negb (deps_update_ok (s_epoch s) (r_deps old) (r_deps rt))) eqn:DU; [discriminate|].
+    destruct (negb (active_kept (s_epoch s) (r_deps old) (r_deps rt))) eqn:AK; [discriminate|].
     destruct (rt_acct old) as [a|]; [|discriminate].
     destruct (caller =? a) eqn:C; [|destruct (r_gov old =? 1); discriminate].
     apply N.eqb_eq in C. subst a. apply negb_false_iff in K. apply N.eqb_eq in K.
-    split; [reflexivity|split; [exact K|split; [|reflexivity]]].
+    apply negb_false_iff in GE, DU, AK. apply N.eqb_eq in GE.
+    split; [reflexivity|split; [exact K|split; [|split; [reflexivity|split; [exact GE|split; [exact DU|exact AK]]]]]].
     apply andb_false_iff in G as [G|G]; apply negb_false_iff in G.
     + left. apply N.eqb_eq. exact G.
     + right. apply andb_true_iff in G as [G1 G2]. apply N.eqb_eq in G1, G2. auto.
-  - destruct (rt_acct rt) as [a|]; [|discriminate].
+  - destruct (active_deployment (s_epoch s) (r_deps rt)) eqn:AD; [discriminate|].
+    destruct (rt_acct rt) as [a|]; [|discriminate].
     destruct (caller =? a) eqn:C; [|destruct (r_gov rt =? 1); discriminate].
-    apply N.eqb_eq in C. subst a. reflexivity.
+    apply N.eqb_eq in C. subst a. auto.
 Qed.
 
 Lemma apply_rtown s rt :
@@ -328,8 +338,11 @@ Section RtAuth.
       match any_runtime s r with
       | Some old => rt_acct old = Some caller /\ r_kind old = r_kind rt /\
                     (r_gov old = r_gov rt \/ (r_gov old = 1 /\ r_gov rt = 2)) /\
-                    km_changed (r_km old) (r_km rt) = false
-      | None => rt_acct rt = Some caller
+                    km_changed (r_km old) (r_km rt) = false /\
+                    r_genesis old = r_genesis rt /\
+                    deps_update_ok (s_epoch s) (r_deps old) (r_deps rt) = true /\
+                    active_kept (s_epoch s) (r_deps old) (r_deps rt) = true
+      | None => rt_acct rt = Some caller /\ active_deployment (s_epoch s) (r_deps rt) = None
       end.
   Proof.
     intros Htx Hinv H Hch. destruct o; try discriminate; cbn [step] in H.
@@ -368,7 +381,7 @@ Section RtAuth.
     intros Hw. cbn [step]. destruct (reg_runtime_check s caller rt) eqn:EC;
       cbn [fst snd]; try (split; [discriminate|reflexivity]).
     exfalso. apply reg_runtime_ok in EC as (_ & _ & Hc).
-    destruct (any_runtime s (r_id rt)); [destruct Hc as [Hc _]|]; contradiction.
+    destruct (any_runtime s (r_id rt)); destruct Hc as [Hc _]; contradiction.
   Qed.
 
   (* an entity cannot be removed while a runtime record (active or suspended) names it as owner *)
